@@ -27,6 +27,28 @@ pub fn liq_pre(w: &World, pre: &Obs, v: usize, t: usize) -> Option<LiqPre> {
     Some(LiqPre { pr, ratio, choices_differ })
 }
 
+/// The liquidation ratio with the position's 15-minute TWAP value taken from the harness's own record of block-final reserves
+/// (one raw unit of slack either way): (lowest, highest) ratio over the three candidate values. None without a record.
+pub fn ratio_by_harness_twap(w: &World, obs: &Obs, v: usize, pr: &PosRef) -> Option<(S, S)> {
+    let tref = pr.n_twap_ref?;
+    let mut lo: Option<S> = None;
+    let mut hi: Option<S> = None;
+    for cand in [tref.saturating_sub(1), tref, tref.saturating_add(1)] {
+        let mut p2 = pr.clone();
+        p2.n_twap = Some(cand);
+        let (r, _, _, _) = liq_ratio(w, obs, v, &p2)?;
+        lo = Some(match lo {
+            Some(x) if x.le(&r) => x,
+            _ => r,
+        });
+        hi = Some(match hi {
+            Some(x) if x.ge(&r) => x,
+            _ => r,
+        });
+    }
+    Some((lo?, hi?))
+}
+
 #[derive(Default)]
 pub struct Mon06 {
     lp: Option<LiqPre>,
@@ -67,6 +89,16 @@ impl Monitor for Mon06 {
                 out.count("attempt_with_oracle_override");
             }
         }
+        if s.pre.v[v].cfg.spot_price_twap_interval < 900 {
+            out.count("attempts_with_funding_twap_interval_below_15min");
+        }
+        if let (Some(a), Some(b)) = (lp.pr.n_twap, lp.pr.n_twap_ref) {
+            out.count(match a.abs_diff(b) {
+                0 => "twap_vs_harness_record.equal",
+                1 => "twap_vs_harness_record.off_by_one",
+                _ => "twap_vs_harness_record.differs",
+            });
+        }
         if !s.res.ok {
             return None;
         }
@@ -90,6 +122,22 @@ impl Monitor for Mon06 {
                 }
             }
             None => out.count("ratio_not_computable"),
+        }
+        // the same with the 15-minute TWAP recomputed from the harness's own record of block-final reserves
+        if let Some((lo, _)) = ratio_by_harness_twap(w, s.pre, v, &lp.pr) {
+            out.count("ratio_checks_with_recomputed_twap");
+            if lo.gt(&maint) {
+                return Some(
+                    Violation::new(
+                        "liquidated_above_maintenance",
+                        format!(
+                            "Liquidate succeeded although, with the 15-minute TWAP value {:?} recomputed from the block-final reserves (the vAMM answered {:?}), the margin ratio is at least {} > maintenance {} (margin {}, funding owed {}, spot value {:?}, open notional {})",
+                            lp.pr.n_twap_ref, lp.pr.n_twap, lo, maint, lp.pr.margin, lp.pr.funding, lp.pr.n_spot, lp.pr.notional
+                        ),
+                    )
+                    .with("twap", "recomputed"),
+                );
+            }
         }
         // ---- (2) payouts
         let pr = &lp.pr;
@@ -178,6 +226,8 @@ impl Monitor for Mon06 {
 
 pub fn liq_weights() -> Weights {
     let mut w = Weights::trading();
+    // funding drains: the oracle is set so that the next settlement consumes about half / all / several times a holder's margin
+    w.drain = 3;
     w.open = 24;
     w.close = 9;
     w.deposit = 3;
@@ -198,17 +248,21 @@ pub fn prop06() -> HistProp {
     let mut p = CfgProfile::general();
     // 4 in 9 vAMMs have a per-block band (partial closes happen there)
     p.fluct = true;
+    let mut w = liq_weights();
+    // the vAMM's owner changes fees, band and the funding TWAP interval in between (the 15-minute window of the liquidation
+    // ratio is none of these settings)
+    w.vcfg = 3;
     HistProp {
         id: "C06",
         level: "exploration",
         profile: p,
-        weights: liq_weights(),
+        weights: w,
         min_ops: 6,
         max_ops: (40, 100),
         cases: (24_000, 400_000),
         make: || Box::new(Mon06::default()),
-        rule: "engine histories that bring positions near / below maintenance: whale trades sized by bisection so that a chosen trader's ratio lands at maintenance -30%..+10% (Squeeze), funding drains, oracle moved within / beyond 10% of spot on both sides, trades in one block and 15 min / hours apart (spot != TWAP), all maintenance / liquidation-fee / partial-ratio settings, callers = liquidator, stranger, owner, other traders, the trader itself. For every successful Liquidate the pre-state ratio is recomputed from API answers (OutputAmount, OutputTwap, SpotPrice, UnderlyingPrice, Position, cumulative fraction): PnL of smaller magnitude among spot and TWAP, r = trunc((M + pnl - F)*D/n), replaced by the oracle-priced ratio when |spot-oracle|/oracle >= 10% and higher; r must be <= maintenance. Payouts from dispatched transfers: position gone: liquidator gets floor(floor(Q*fee/D)/2), trader nothing, vault->fund = max(0, M + PnL - F) - liquidator fee (floored at 0); position remains: |size| falls by exactly floor(|size|*fraction/D) with the same sign, liquidator and fund get floor(floor(Q*fee/D)/2) each. Non-trivial: a history with a successful liquidation and an attempt within 2% of maintenance, or where the TWAP PnL is the chosen one, or where the oracle override applies. Distinct by digest of (cfg, ops).",
-        assumptions: &["OutputAmount / OutputTwap / UnderlyingPrice are the vAMM's API and are themselves checked by C17/C18; the ratio, the three-way choice and the comparison are recomputed independently"],
+        rule: "engine histories that bring positions near / below maintenance: whale trades sized by bisection so that a chosen trader's ratio lands at maintenance -30%..+10% (Squeeze), funding drains, oracle moved within / beyond 10% of spot on both sides, trades in one block and 15 min / hours apart (spot != TWAP), all maintenance / liquidation-fee / partial-ratio settings, callers = liquidator, stranger, owner, other traders, the trader itself. For every successful Liquidate the pre-state ratio is recomputed from API answers (OutputAmount, OutputTwap, SpotPrice, UnderlyingPrice, Position, cumulative fraction): PnL of smaller magnitude among spot and TWAP, r = trunc((M + pnl - F)*D/n), replaced by the oracle-priced ratio when |spot-oracle|/oracle >= 10% and higher; r must be <= maintenance. The same ratio is computed a second time with the position's 15-minute TWAP value recomputed by the harness from its own record of block-final reserves (constant-product quote per recorded block, time-weighted over the last 900 s, +-1 raw unit of slack) instead of the vAMM's OutputTwap answer; it must be <= maintenance as well. Payouts from dispatched transfers: position gone: liquidator gets floor(floor(Q*fee/D)/2), trader nothing, vault->fund = max(0, M + PnL - F) - liquidator fee (floored at 0); position remains: |size| falls by exactly floor(|size|*fraction/D) with the same sign, liquidator and fund get floor(floor(Q*fee/D)/2) each. Non-trivial: a history with a successful liquidation and an attempt within 2% of maintenance, or where the TWAP PnL is the chosen one, or where the oracle override applies. Distinct by digest of (cfg, ops).",
+        assumptions: &["OutputAmount / UnderlyingPrice are the vAMM's API (checked by C17/C18); OutputTwap is used as answered and, independently, recomputed from the harness's record of block-final reserves; the ratio, the three-way choice and the comparison are recomputed independently"],
         eval_counter: None,
     }
 }
@@ -268,7 +322,13 @@ impl Monitor for Mon07 {
             let mut why = "";
             let mut ok = true;
             ok &= pass(*limit == 0, "limit_nonzero", out, &mut why);
-            ok &= pass(lp.ratio.as_ref().map(|r| r.0.lt(&maint)).unwrap_or(false), "not_below_maintenance", out, &mut why);
+            // below maintenance by the vAMM's own answers, or by the 15-minute TWAP recomputed from the harness's record of
+            // block-final reserves (whatever the one unit of slack)
+            let below_by_record = ratio_by_harness_twap(w, pre, *v, pr).map(|(_, hi)| hi.lt(&maint)).unwrap_or(false);
+            if below_by_record {
+                out.count("below_maintenance_by_recomputed_twap");
+            }
+            ok &= pass(lp.ratio.as_ref().map(|r| r.0.lt(&maint)).unwrap_or(false) || below_by_record, "not_below_maintenance", out, &mut why);
             ok &= pass(pre.v[*v].state.open && pre.v[*v].registered, "closed_or_unregistered", out, &mut why);
             // "not already outside its per-block band": spot within [p(1-l), p(1+l)] of the previous block's final price, edges included
             let l = pre.v[*v].cfg.fluctuation_limit_ratio.u128();
